@@ -530,6 +530,21 @@ func (st *c04State) judge(withPIT bool) (string, string) {
 				pits = append(pits, &t)
 			}
 			for _, pit := range pits {
+				wantVols := map[string][2]map[string][2]*big.Int{}
+				cmpVols := func(a, kind string, gotM ledger.VolumesByAssets, want map[string][2]*big.Int) (string, string) {
+					for asset, w := range want {
+						g := gotM[asset]
+						if g == nil || g.Input == nil || g.Output == nil || g.Input.Cmp(w[0]) != 0 || g.Output.Cmp(w[1]) != 0 {
+							return kind, fmt.Sprintf("ledger %s: account %s %s at %v: the read API reports %v for %s, replaying the log gives input=%s output=%s", ldg, a, kind, pitStr(pit), g, asset, w[0], w[1])
+						}
+					}
+					for asset, g := range gotM {
+						if _, ok := want[asset]; !ok && g != nil && (g.Input.Sign() != 0 || g.Output.Sign() != 0) {
+							return kind, fmt.Sprintf("ledger %s: account %s %s at %v: the read API reports %v for %s, the log has no such movement yet", ldg, a, kind, pitStr(pit), g, asset)
+						}
+					}
+					return "", ""
+				}
 				for a := range accs {
 					q := ledgerstore.NewGetAccountQuery(a)
 					q.PIT = pit
@@ -587,24 +602,11 @@ func (st *c04State) judge(withPIT bool) (string, string) {
 							add(wantE, e)
 						}
 					}
-					cmp := func(kind string, gotM ledger.VolumesByAssets, want map[string][2]*big.Int) (string, string) {
-						for asset, w := range want {
-							g := gotM[asset]
-							if g == nil || g.Input == nil || g.Output == nil || g.Input.Cmp(w[0]) != 0 || g.Output.Cmp(w[1]) != 0 {
-								return kind, fmt.Sprintf("ledger %s: account %s %s at %v: the read API reports %v for %s, replaying the log gives input=%s output=%s", ldg, a, kind, pitStr(pit), g, asset, w[0], w[1])
-							}
-						}
-						for asset, g := range gotM {
-							if _, ok := want[asset]; !ok && g != nil && (g.Input.Sign() != 0 || g.Output.Sign() != 0) {
-								return kind, fmt.Sprintf("ledger %s: account %s %s at %v: the read API reports %v for %s, the log has no such movement yet", ldg, a, kind, pitStr(pit), g, asset)
-							}
-						}
-						return "", ""
-					}
-					if k, w := cmp("api-volumes", got.Volumes, wantV); w != "" {
+					wantVols[a] = [2]map[string][2]*big.Int{wantV, wantE}
+					if k, w := cmpVols(a, "api-volumes", got.Volumes, wantV); w != "" {
 						return k, w
 					}
-					if k, w := cmp("api-effective-volumes", got.EffectiveVolumes, wantE); w != "" {
+					if k, w := cmpVols(a, "api-effective-volumes", got.EffectiveVolumes, wantE); w != "" {
 						return k, w
 					}
 				}
@@ -634,10 +636,20 @@ func (st *c04State) judge(withPIT bool) (string, string) {
 						sort.Strings(out)
 						return out
 					}
-					opts := ledgerstore.NewPaginatedQueryOptions(ledgerstore.PITFilterWithVolumes{PITFilter: ledgerstore.PITFilter{PIT: pit}}).WithPageSize(100)
+					opts := ledgerstore.NewPaginatedQueryOptions(ledgerstore.PITFilterWithVolumes{PITFilter: ledgerstore.PITFilter{PIT: pit}, ExpandVolumes: withPIT, ExpandEffectiveVolumes: withPIT}).WithPageSize(100)
 					cur, err := s.GetAccountsWithVolumes(ctx, ledgerstore.NewGetAccountsQuery(opts))
 					if err != nil {
 						return "read-error", fmt.Sprintf("GetAccountsWithVolumes at %s: %v", pitStr(pit), err)
+					}
+					for _, a := range cur.Data {
+						if w, ok := wantVols[a.Address]; ok && withPIT {
+							if k, why := cmpVols(a.Address, "list-volumes", a.Volumes, w[0]); why != "" {
+								return k, why
+							}
+							if k, why := cmpVols(a.Address, "list-effective-volumes", a.EffectiveVolumes, w[1]); why != "" {
+								return k, why
+							}
+						}
 					}
 					var gotAccs []string
 					for _, a := range cur.Data {
@@ -1002,8 +1014,11 @@ func c04() int {
 	}
 	depth, pitDepth := 4, 3
 	scope := fmt.Sprintf("every log history of length <= %d over %d log shapes", depth, len(ops))
-	explore(ops, depth, pitDepth)
-	if rep.Thorough() {
+	devFiltersOnly := os.Getenv("VERIF_C04_PART") == "filters" // development aid: skip the history exploration
+	if !devFiltersOnly {
+		explore(ops, depth, pitDepth)
+	}
+	if rep.Thorough() && !devFiltersOnly {
 		// a second, deeper pass over the shapes that interact (dates before / after the insertion clock, reverts, metadata
 		// set and delete on both target kinds, two assets, self transfer, the second ledger)
 		var core []c04Op
@@ -1016,6 +1031,8 @@ func c04() int {
 		scope += fmt.Sprintf(", plus every history of length <= 5 over %d of them", len(core))
 	}
 	nPatterns, nFilterReads := c04Filters(rep, root, rep.Thorough())
+	nValueFilters, nValueReads := c04ValueFilters(rep, root)
+	nFilterReads += nValueReads
 	nsql := c04Structural(rep)
 	cov := evid.Coverage{
 		"states":                        int(states),
@@ -1023,11 +1040,12 @@ func c04() int {
 		"traces_validated_against_impl": int(transitions),
 		"samples":                       samples.Got,
 		"exhaustive":                    true,
-		"rule":                          fmt.Sprintf("breadth-first exploration of %s on two ledgers sharing one bucket (point-in-time reads at every insertion midpoint and at 4 effective instants up to depth %d, current-state reads at every depth); each log is chained with the repository's constructors and inserted through the real ledgerstore.Store.InsertLogs into pgmini, an interpreter that executes the working tree's 0-init-schema.sql (PL/pgSQL triggers) and the SQL the Go store emits; in every state the moves / transactions tables and the Go read methods are compared with an independent fold of that ledger's log; states = histories reached, transitions = InsertLogs executed; plus %d address patterns (every sequence of 1..4 segments over a small alphabet incl. the wildcard) through every filtered read (%d reads) on a ledger with accounts of 1..4 segments; plus %d read statements checked for a ledger predicate", scope, pitDepth, nPatterns, nFilterReads, nsql),
+		"rule":                          fmt.Sprintf("breadth-first exploration of %s on two ledgers sharing one bucket (point-in-time reads at every insertion midpoint and at 4 effective instants up to depth %d, current-state reads at every depth); each log is chained with the repository's constructors and inserted through the real ledgerstore.Store.InsertLogs into pgmini, an interpreter that executes the working tree's 0-init-schema.sql (PL/pgSQL triggers) and the SQL the Go store emits; in every state the moves / transactions tables and the Go read methods are compared with an independent fold of that ledger's log; states = histories reached, transitions = InsertLogs executed; plus %d address patterns (every sequence of 1..4 segments over a small alphabet incl. the wildcard) through every filtered read (%d reads) on a ledger with accounts of 1..4 segments, and %d metadata / balance / reference / timestamp filters (every operator, plain and under $not / $and / $or) through the listings and counts; plus %d read statements checked for a ledger predicate", scope, pitDepth, nPatterns, nFilterReads, nValueFilters, nsql),
 		"validated_against_postgresql":  0,
 		"interpreter_unsupported_hits":  int(unsupported),
 		"violation_kinds":               kinds.M,
 		"address_patterns":              nPatterns,
+		"value_filters":                 nValueFilters,
 		"filtered_reads":                nFilterReads,
 	}
 	rep.Assume = []string{"pgmini's reading of PostgreSQL semantics (SPEC.md in /verif/xverif/lib/pgmini; no PostgreSQL server exists in the sandbox to validate it against)", "account volumes / effective volumes and aggregated balances are executed with and without a point in time (by insertion date resp. effective date); the point-in-time variants of the transaction listings and the volumes of listed accounts are not compared (only their ledger predicate is checked)"}
